@@ -70,6 +70,21 @@ def main():
             r = mod.run_case(c)
         except Exception:  # noqa: BLE001 - a harness bug, never a verdict
             r = {"status": "harness_error", "error": traceback.format_exc()[-2500:]}
+        if r.get("violations"):
+            try:  # make the replay independent of later changes to the generator
+                from vlib import pipeline
+
+                if pipeline.LAST["desc"] is not None:
+                    r["witness_desc"] = pipeline.LAST["desc"]
+                    r["witness_features"] = pipeline.LAST["realised"]
+            except Exception:  # noqa: BLE001
+                pass
+        try:
+            from vlib import pipeline as _p
+
+            _p.LAST["desc"] = None
+        except Exception:  # noqa: BLE001
+            pass
         r["id"] = c["id"]
         r["wall"] = round(time.time() - t0, 2)
         emit(r)
